@@ -136,16 +136,17 @@ Print Assumptions C09_search_spec.
       - a value of an UNNAMED branch comes back as a plain normalised value and must re-resolve to the same branch under the
         writer's search (the exclusion corr:closure applies: a bytearray written as "bytes" comes back as bytes and fits an
         earlier fixed; see C09_closure_refuted);
-      - "float" leaves survive single -> double -> single (d2s (s2d x) = x: true of every pattern d2s produces; decided per
-        value here); an enum index is the first occurrence of its symbol; map keys / record field names are distinct. *)
+      - an enum index is the first occurrence of its symbol; map keys / record field names are distinct.
+    [floats_stable a]: every "float" leaf survives single -> double -> single (d2s (s2d x) = x); it holds of every pattern
+    pack("<f") produces, hence of every value the writer wrote: C09_closure_written needs no such hypothesis. *)
 Theorem C09_closure : forall n o e s a pv,
-  typedn n e s a -> closb n o e s a = true -> py_of ro_named e s a = Some pv ->
+  typedn n e s a -> closb n o e s a = true -> floats_stable a = true -> py_of ro_named e s a = Some pv ->
   exists f0, forall f, (f0 <= f)%nat -> elab f o e s pv = WOk a.
 Proof. exact closure. Qed.
 Print Assumptions C09_closure.
 
 Theorem C09_closure_bytes : forall n o e s a pv,
-  typedn n e s a -> closb n o e s a = true -> py_of ro_named e s a = Some pv ->
+  typedn n e s a -> closb n o e s a = true -> floats_stable a = true -> py_of ro_named e s a = Some pv ->
   exists f0, forall f, (f0 <= f)%nat -> write f o e s pv = WOk (wire a).
 Proof. exact closure_bytes. Qed.
 Print Assumptions C09_closure_bytes.
